@@ -1,71 +1,104 @@
 package redisemu
 
-import "strings"
-
+// redisGlob matches candidate against a glob pattern the way Redis'
+// stringmatchlen does (case sensitive): '*' any sequence, '?' any character,
+// '[abc]' / '[a-c]' / '[^a]' character classes with '\' escapes inside, '\x'
+// a literal x. A nil pattern matches everything.
 func redisGlob(pattern, candidate []rune) bool {
-
 	if pattern == nil {
 		return true
 	}
 
-	patPos := 0
-	for i := 0; i < len(candidate); i++ {
-		if patPos >= len(pattern) {
-			return false
-		}
-
-		patCh := pattern[patPos]
-		if patCh == '?' {
-			patPos++
-			continue
-		} else if patCh == '*' {
-			patPos++
-			if patPos >= len(pattern) {
+	for len(pattern) > 0 && len(candidate) > 0 {
+		switch pattern[0] {
+		case '*':
+			for len(pattern) > 1 && pattern[1] == '*' {
+				pattern = pattern[1:]
+			}
+			if len(pattern) == 1 {
 				return true
 			}
-
-			for j := i; j < len(candidate); j++ {
-				if redisGlob(pattern[patPos:], candidate[j:]) {
+			for len(candidate) > 0 {
+				if redisGlob(pattern[1:], candidate) {
 					return true
 				}
+				candidate = candidate[1:]
+			}
+			return false
+
+		case '?':
+			candidate = candidate[1:]
+
+		case '[':
+			pattern = pattern[1:]
+			negate := len(pattern) > 0 && pattern[0] == '^'
+			if negate {
+				pattern = pattern[1:]
+			}
+			match := false
+			terminated := true
+			for {
+				if len(pattern) >= 2 && pattern[0] == '\\' {
+					pattern = pattern[1:]
+					if pattern[0] == candidate[0] {
+						match = true
+					}
+				} else if len(pattern) == 0 {
+					// unterminated class: the pattern ends here
+					terminated = false
+					break
+				} else if pattern[0] == ']' {
+					break
+				} else if len(pattern) >= 3 && pattern[1] == '-' {
+					lo, hi := pattern[0], pattern[2]
+					if lo > hi {
+						lo, hi = hi, lo
+					}
+					pattern = pattern[2:]
+					if candidate[0] >= lo && candidate[0] <= hi {
+						match = true
+					}
+				} else if pattern[0] == candidate[0] {
+					match = true
+				}
+				pattern = pattern[1:]
+			}
+			if negate {
+				match = !match
+			}
+			if !match {
+				return false
+			}
+			candidate = candidate[1:]
+			if !terminated {
+				// nothing is left of the pattern
+				return len(candidate) == 0
 			}
 
-			return false
-		} else if patCh == '[' {
-			var patSet strings.Builder
-			patPos++
-			for patPos < len(pattern) {
-				letter := pattern[patPos]
-				if letter == ']' {
-					patPos++
-					break
-				}
-				if letter == '\\' && patPos+1 < len(pattern) {
-					patPos++
-				}
-				patSet.WriteRune(pattern[patPos])
-				patPos++
+		case '\\':
+			if len(pattern) >= 2 {
+				pattern = pattern[1:]
 			}
-			if !strings.ContainsRune(patSet.String(), candidate[i]) {
+			if pattern[0] != candidate[0] {
 				return false
 			}
-		} else if patCh == '\\' && patPos+1 < len(pattern) {
-			patPos++
-			if pattern[patPos] != candidate[i] {
+			candidate = candidate[1:]
+
+		default:
+			if pattern[0] != candidate[0] {
 				return false
 			}
-			patPos++
-		} else {
-			if patCh != candidate[i] {
-				return false
+			candidate = candidate[1:]
+		}
+
+		pattern = pattern[1:]
+		if len(candidate) == 0 {
+			for len(pattern) > 0 && pattern[0] == '*' {
+				pattern = pattern[1:]
 			}
-			patPos++
+			break
 		}
 	}
 
-	for patPos < len(pattern) && pattern[patPos] == '*' {
-		patPos++
-	}
-
-	return patPos >= len(pattern)
+	return len(pattern) == 0 && len(candidate) == 0
 }
